@@ -24,6 +24,8 @@ TOP = ["name", "parent", "table_name", "app_profile_id", "resource", "type"]
 NESTED = ["book.name", "book.title", "book.format", "book.shelf.name", "book.shelf.id", "book.shelf.type", "book.class",
           "book.shelf.import"]
 KW_TOP = ["from", "class"]
+INTS = {"num": "int32", "big": "int64", "book.pages": "int32"}      # non-string path variables (implicit routing only)
+INT_VALUES = {"int32": ["0", "1", "7", "-3", "2147483647"], "int64": ["0", "5", "-1", "9007199254740993"]}
 HDR = "x-goog-request-params"
 SAFE_HEADER = re.compile(r"^[A-Za-z0-9_.~/%+=&-]*$")
 
@@ -187,6 +189,7 @@ def real_param(field, template):
 
 def check_templates(ctx, r, ntemplates, nvalues, extra=()):
     cases = [(gen_template(r), None) for _ in range(ntemplates)] + list(extra)
+    cases += [(gen_unnamed(r, 1, 3, True), None) for _ in range(max(1, ntemplates // 12))]      # no named segment
     ops, metas = [], []
     for segs, vals in cases:
         toks = [t for t, _ in flat_toks(segs)]
@@ -197,7 +200,7 @@ def check_templates(ctx, r, ntemplates, nvalues, extra=()):
     for (segs, values), mo in zip(metas, model):
         tmpl = render_template(segs)
         payload = {"template_segs": segs, "template": tmpl}
-        ctx.count("template_shape", shape_of(segs))
+        ctx.count("template_shape", shape_of(segs) if any(x[0] == "named" for x in segs) else "unnamed")
         try:
             p = real_param("f", tmpl)
             pat = p.to_regex().pattern
@@ -205,6 +208,21 @@ def check_templates(ctx, r, ntemplates, nvalues, extra=()):
         except Exception as e:  # noqa
             ctx.case(distinct_key=["tmpl", tmpl])
             ctx.fail("to-regex-raised", f"to_regex raised {type(e).__name__}: {e} for {tmpl!r}", payload)
+            continue
+        if mo.get("error") == "noNamed":
+            # template without named segment: accepted by the code (key falls back to the field), no group
+            try:
+                real = translate.regex_to_json(pat)
+            except Exception as e:  # noqa
+                real = {"re": None, "names": None, "error": str(e)}
+            if real["re"] != mo["regex"]["re"] or real["names"] != mo["regex"]["names"] or key != "f" or mo["rendered"] != tmpl:
+                ctx.disagree("T2:c06.to_regex_unnamed", f"regex AST/key differ for {tmpl!r}: impl {pat!r} key {key!r}", payload)
+            rx = re.compile(pat)
+            for v, mm, ms in zip(values, mo["matches"], mo["scanmatches"]):
+                ctx.case(distinct_key=["tv0", tmpl, v], nontrivial=True)
+                ctx.traces += 1
+                if bool(rx.match(v)) != mm or mm != ms:
+                    ctx.disagree("T2:c06.match_unnamed", f"{tmpl!r} on {v!r}: impl {bool(rx.match(v))} model {mm} scanner {ms}", {**payload, "value": v})
             continue
         if "error" in mo or mo.get("unsupported"):
             ctx.unsupported += 1
@@ -263,6 +281,54 @@ def check_many_named(ctx, r, n):
         if (raised == "ValueError") != (mo.get("error") == "manyNamed"):
             ctx.disagree("T2:c06.many_named", f"{tmpl!r}: impl raised {raised}, model {mo}", {"template_segs": segs, "template": tmpl})
 
+# ------------------------------------------------------------------ T2d: RoutingRule.resolve (schema side, feeds the emitted tests)
+
+
+def check_schema_resolve(ctx, r, n):
+    from gapic.schema import wrappers
+    ops, metas = [], []
+    for i in range(n):
+        spec = gen_spec(r, i, "explicit")
+        params = [p for p in spec["params"]]
+        rule = wrappers.RoutingRule([wrappers.RoutingParameter(p["field"], render_template(p["segs"]) if p["segs"] is not None else "")
+                                     for p in params])
+        reqs = []
+        for _ in range(3):
+            q = gen_request(r, spec)
+            for f in list(q):
+                if f in INTS:
+                    del q[f]
+            mode = r.randrange(3)           # 0: unset fields absent (as `nest` does); 1: every field present; 2: drop one
+            flat = dict(q) if mode else {k: v for k, v in q.items() if v != ""}
+            if mode == 2 and flat:
+                del flat[r.pick(sorted(flat))]
+            reqs.append(flat)
+        ops.append({"op": "c06.schema", "params": [{"field": p["field"], "segs": p["segs"]} for p in params], "requests": reqs})
+        metas.append((spec, rule, reqs))
+    for (spec, rule, reqs), mo in zip(metas, ctx.driver.ask(ops)):
+        for flat, mp in zip(reqs, mo.get("results", [None] * len(reqs))):
+            d = {}
+            for path, v in flat.items():
+                cur = d
+                parts = path.split(".")
+                for x in parts[:-1]:
+                    cur = cur.setdefault(x, {})
+                cur[parts[-1]] = v
+            ctx.case(distinct_key=["schema", json.dumps(spec["params"], sort_keys=True), json.dumps(flat, sort_keys=True)], nontrivial=True)
+            ctx.traces += 1
+            try:
+                impl = [[k, v] for k, v in wrappers.RoutingRule.resolve(rule, d).items()]
+            except Exception as e:  # noqa
+                impl = f"raised {type(e).__name__}: {e}"
+            if impl != mp:
+                ctx.disagree("T2:c06.schema_resolve", f"RoutingRule.resolve {impl} vs model {mp}", {"spec": spec, "request": flat})
+            # where the Lean theorem `schema_resolve_agrees` applies (all fields present, no empty value) the schema side must
+            # give what AIP-4222 gives: the emitted tests then expect what the emitted client must send
+            if isinstance(impl, list) and all(f in flat for f in spec_fields(spec) if f not in INTS) and all(v != "" for _, v in impl):
+                present, want = expected_pairs({**spec, "http": None}, flat)
+                if sorted(impl) != sorted(want):
+                    ctx.disagree("T2:c06.schema_vs_aip", f"RoutingRule.resolve {impl} vs AIP-4222 {want}", {"spec": spec, "request": flat})
+
 # ------------------------------------------------------------------ T2b: encoding
 
 
@@ -282,7 +348,7 @@ def check_encode(ctx, r, n):
         oracle_header(ctx, impl, pairs, {"pairs": pairs}, "encode")
 
 
-def oracle_header(ctx, header, want_pairs, payload, where):
+def oracle_header(ctx, header, want_pairs, payload, where, key=None):
     """statement: values are URL-encoded and the header carries exactly the expected key/value pairs"""
     if not SAFE_HEADER.match(header):
         ctx.fail("header-not-url-encoded", f"{where}: header {header!r} contains characters outside the URL-safe set", payload)
@@ -293,7 +359,7 @@ def oracle_header(ctx, header, want_pairs, payload, where):
         ctx.fail("header-not-url-encoded", f"{where}: header {header!r} does not parse: {e}", payload)
         return False
     if sorted(map(list, got)) != sorted(map(list, want_pairs)):
-        ctx.fail("header-pairs", f"{where}: header {header!r} carries {got}, expected {want_pairs}", payload)
+        ctx.fail(key or "header-pairs", f"{where}: header {header!r} carries {got}, expected {want_pairs}", payload)
         return False
     return True
 
@@ -314,7 +380,9 @@ def gen_http(r, fields, nvars=None):
     for i, f in enumerate(chosen):
         last = i == nvars - 1
         k = r.random()
-        if k < 0.3:
+        if f in INTS:
+            sub = None if k < 0.6 else [["star"]]
+        elif k < 0.3:
             sub = None
         elif k < 0.45:
             sub = [["star"]]
@@ -364,7 +432,7 @@ def rest_accepts(toks, v):
     parts = v.split("/")
     if v == "" or "" in parts or not value_matches(toks, v):
         return False
-    if any(ch not in REST_ALPHA + "/ABCXYZ" for ch in v) or "." in parts or ".." in parts:
+    if v == "0" or any(ch not in REST_ALPHA + "/ABCXYZ" for ch in v) or "." in parts or ".." in parts:
         return False        # keep URL parsing/normalisation of the loopback hop (C04's subject) out of this check
     return not (toks[-1] == ["dstar"] and len(parts) < len(toks))
 
@@ -374,7 +442,12 @@ def rest_accepts(toks, v):
 def gen_spec(r, idx, kind=None):
     kind = kind or r.pick(["explicit", "explicit", "explicit", "explicit", "implicit", "implicit", "implicit", "both", "none",
                            "empty-rule"])
-    spec = {"name": f"Method{idx}", "kind": kind, "params": None, "http": None}
+    spec = {"name": f"Method{idx}", "kind": kind, "params": None, "http": None, "stream": None, "binding": None}
+    k = r.random()
+    if k < 0.08:
+        spec["stream"] = "cs"           # client streaming: no request when the call starts
+    elif k < 0.16:
+        spec["stream"] = "ss"
     if kind in ("explicit", "both"):
         nparams = r.randint(1, 5)
         fields = [r.pick(TOP + NESTED + KW_TOP) for _ in range(r.randint(1, 3))]
@@ -396,9 +469,13 @@ def gen_spec(r, idx, kind=None):
     if kind == "empty-rule":
         spec["params"] = []
     if kind in ("implicit", "both"):
-        spec["http"] = gen_http(r, TOP + NESTED + KW_TOP)
+        spec["http"] = gen_http(r, TOP + NESTED + KW_TOP + list(INTS))
     elif kind == "empty-rule":      # annotation without parameters: AIP-4222 = send nothing, even with http variables
-        spec["http"] = gen_http(r, TOP + NESTED + KW_TOP) if r.maybe(0.7) else None
+        spec["http"] = gen_http(r, TOP + NESTED + KW_TOP + list(INTS)) if r.maybe(0.7) else None
+    if spec["http"] and http_vars(spec["http"]) and r.maybe(0.3):
+        # an additional binding with another variable: implicit routing looks at the PRIMARY path only
+        other = [f for f in TOP if f not in http_vars(spec["http"])]
+        spec["binding"] = "/v1/alt/{" + r.pick(other) + "=" + r.pick(COLL) + "/*}"
     elif kind == "explicit":
         spec["http"] = {"verb": "post", "parts": [["lit", "v1"], ["lit", f"m{idx}"]], "suffix": ":call"} if r.maybe(0.8) else None
     elif kind == "none":
@@ -435,6 +512,9 @@ def gen_request(r, spec, rest_friendly=False):
     req = {}
     for f in spec_fields(spec):
         tl = templates_for_field(spec, f)
+        if f in INTS:
+            req[f] = r.pick(INT_VALUES[INTS[f]][1:] if rest_friendly else INT_VALUES[INTS[f]])
+            continue
         if rest_friendly and spec["http"] and var_toks(spec["http"], f) is not None:
             req[f] = matching_value(r, var_toks(spec["http"], f), rest=True)
             continue
@@ -450,11 +530,19 @@ def gen_request(r, spec, rest_friendly=False):
     return req
 
 
-def nest(flat):
+def empty_request(spec):
+    """what `request=None` means: every field at its default"""
+    return {f: ("0" if f in INTS else "") for f in spec_fields(spec)}
+
+
+def nest(flat, literal=False):
+    """nested JSON valuation (literal=True: the dict a caller would write, python ints for integer fields)"""
     d = {}
     for path, v in flat.items():
-        if v == "":
+        if v == "" or (path in INTS and v == "0"):
             continue
+        if path in INTS and (literal or INTS[path] == "int32"):
+            v = int(v)
         cur = d
         parts = path.split(".")
         for p in parts[:-1]:
@@ -479,7 +567,7 @@ def expected_pairs(spec, req):
                     out[key] = cap
         return (bool(out), [[k, v] for k, v in out.items()])
     if spec["http"] and http_vars(spec["http"]):
-        return (True, [[v, req.get(v, "")] for v in http_vars(spec["http"])])
+        return (True, [[v, req.get(v, "0" if v in INTS else "")] for v in http_vars(spec["http"])])
     return (False, [])
 
 
@@ -531,7 +619,7 @@ def build_files(specs):
         shelf.field(n)
     book = f.msg("Book")
     for n in book_fields:
-        book.field(n)
+        book.field(n, INTS.get("book." + n, "string"))
     book.field("shelf", "message", type_name=shelf)
     rs = f.msg("Reply")
     rs.field("note")
@@ -544,7 +632,7 @@ def build_files(specs):
             if head != "book" and head not in tops:
                 tops.append(head)
         for n in tops:
-            rq.field(n)
+            rq.field(n, INTS.get(n, "string"))
         rq.field("book", "message", type_name=book)
         http = None
         body = None
@@ -555,7 +643,9 @@ def build_files(specs):
         routing = None
         if s["params"]:
             routing = [(p["field"], render_template(p["segs"]) if p["segs"] is not None else None) for p in s["params"]]
-        m = svc.method(s["name"], rq, rs, http=http, body=body, routing=routing)
+        m = svc.method(s["name"], rq, rs, http=http, body=body, routing=routing,
+                       cs=s.get("stream") == "cs", ss=s.get("stream") == "ss",
+                       bindings=[("get", s["binding"], None)] if s.get("binding") and http else ())
         if s["params"] is not None and not s["params"]:
             from google.api import routing_pb2
             m.options.Extensions[routing_pb2.routing].SetInParent()
@@ -571,11 +661,18 @@ def header_of_http(rec):
     return [v for k, v in rec["headers"] if k.lower() == HDR]
 
 
-def run_api(ctx, r, specs, label, ncalls=4, requests=None):
-    """generate one API for `specs`, T2 on the schema objects, T3 on sync/asyncio/REST clients"""
+GEN_PARAMS = {"standard": "transport=grpc+rest,autogen-snippets=false",
+              "ads": "python-gapic-templates=ads-templates,old-naming,autogen-snippets=false"}
+CLIENT_KINDS = {"standard": ("grpc", "grpc_asyncio", "rest"), "ads": ("grpc",)}
+
+
+def run_api(ctx, r, specs, label, ncalls=4, requests=None, templates="standard"):
+    """generate one API for `specs`, T2 on the schema objects, T3 on the emitted clients (standard templates: sync
+    gRPC, asyncio gRPC, REST; ads templates: sync gRPC).  All calls of one client kind go through ONE client object,
+    one after the other (a program, not isolated calls)."""
     import gapic.utils as gu
     files = build_files(specs)
-    req = apigen.request(files, "transport=grpc+rest,autogen-snippets=false")
+    req = apigen.request(files, GEN_PARAMS[templates])
     sig = None
     for s in specs:
         sig = sig or classify(s)
@@ -587,30 +684,44 @@ def run_api(ctx, r, specs, label, ncalls=4, requests=None):
     svc = api.services[f"{PKG}.Library"]
     loc = rpc.py_locations(api, svc)
     codec = rpc.Codec(files)
-    # ---- requests
+    # ---- requests and how the caller passes them
     plans = []
     for s in specs:
         reqs = requests.get(s["name"]) if requests else None
         if reqs is None:
             reqs = [gen_request(r, s, rest_friendly=(k % 2 == 1)) for k in range(ncalls)]
-        plans.append((s, reqs))
+        modes = []
+        for k in range(len(reqs)):
+            mode = r.pick(["request-instance", "request-dict", "request-literal-dict", "request-literal-dict"])
+            if s.get("stream") == "cs":
+                mode = "request-instance"
+            elif requests is None and r.maybe(0.06):
+                mode = "request-none"
+                reqs[k] = empty_request(s)
+            modes.append(mode)
+        plans.append((s, reqs, modes))
     # ---- T2 on schema-side objects + model answers
     ops = []
-    for s, reqs in plans:
-        if s["params"] is not None:
+    for s, reqs, _ in plans:
+        cs = s.get("stream") == "cs"
+        # the ads client.py.j2 renders only the `field_headers` tuple and never calls create_metadata: the model of
+        # what it emits is the implicit branch, whatever the routing annotation says (the oracle still demands AIP-4222)
+        if s["params"] is not None and templates != "ads":
             ops.append({"op": "c06.explicit", "params": [{"field": p["field"], "segs": p["segs"]} for p in s["params"]],
-                        "requests": [model_request(q) for q in reqs]})
+                        "client_streaming": cs, "requests": [model_request(q) for q in reqs]})
         else:
             verbs = [""] * 6
             if s["http"]:
                 verbs[["get", "put", "post", "delete", "patch"].index(s["http"]["verb"])] = render_http(s["http"])
-            ops.append({"op": "c06.implicit", "verbs": verbs, "requests": [model_request(q) for q in reqs]})
+            ops.append({"op": "c06.implicit", "verbs": verbs, "client_streaming": cs, "requests": [model_request(q) for q in reqs]})
     model = ctx.driver.ask(ops)
-    for (s, reqs), mo in zip(plans, model):
+    for (s, reqs, _), mo in zip(plans, model):
         m = svc.methods[s["name"]]
-        ctx.count("method_kind", s["kind"])
+        ctx.count("method_kind", s["kind"] + (":" + s["stream"] if s.get("stream") else "") + ("+binding" if s.get("binding") else ""))
         ctx.traces += 1
-        if s["params"] is not None:
+        if s["params"] is not None and templates == "ads":
+            pass
+        elif s["params"] is not None:
             if bool(m.explicit_routing) is not True:
                 ctx.disagree("T2:c06.explicit_routing", f"{s['name']}: routing annotation not seen by the schema", {"spec": s})
             if s["params"]:
@@ -628,7 +739,7 @@ def run_api(ctx, r, specs, label, ncalls=4, requests=None):
     # ---- T3
     res, err = genrun.try_generate(req)
     if err:
-        ctx.fail(sig or ("generation-crash:" + err[0]), f"generator raised {err[0]}: {err[1]}", {"specs": specs, "spec": specs[0]})
+        ctx.fail(sig or ("generation-crash:" + err[0]), f"generator raised {err[0]}: {err[1]}", {"specs": specs, "spec": specs[0], "templates": templates})
         return
     bad = []
     for fl in res.file:
@@ -638,52 +749,55 @@ def run_api(ctx, r, specs, label, ncalls=4, requests=None):
             except SyntaxError as e:
                 bad.append(f"{fl.name}:{e.lineno}: {(e.text or '').strip()}")
     if bad:
-        culprit = next((s for s in specs if classify(s)), specs[0])
         for s in specs:
             ctx.case({"spec_kind": s["kind"], "emitted": "SyntaxError"}, distinct_key=["spec", json.dumps(s, sort_keys=True)])
         ctx.fail(sig or "emitted-client-syntax-error",
-                 f"emitted client does not parse, no call can carry the header: {bad[0]}", {"specs": [culprit], "spec": culprit})
+                 f"emitted client does not parse, no call can carry the header: {bad[0]}", {"specs": specs, "spec": specs[0], "templates": templates})
         return
+    kinds = CLIENT_KINDS[templates]
     root = genrun.materialise(res)
     try:
-        calls_by_kind = {"grpc": [], "grpc_asyncio": [], "rest": []}
+        calls_by_kind = {k: [] for k in kinds}
         index = []
-        for s, reqs in plans:
+        for s, reqs, modes in plans:
             m = svc.methods[s["name"]]
-            for q in reqs:
-                call = {"method": gu.to_snake_case(m.client_method_name), "mode": r.pick(["request-instance", "request-dict"]),
-                        "py_request": rpc.py_type(m.input),
-                        "request_b64": codec.encode_b64(m.input.ident.proto, nest(q)), "consume": "value",
+            for q, mode in zip(reqs, modes):
+                b64 = codec.encode_b64(m.input.ident.proto, nest(q))
+                call = {"method": gu.to_snake_case(m.client_method_name), "mode": mode,
+                        "py_request": rpc.py_type(m.input), "request_b64": b64,
+                        "consume": "stream" if s.get("stream") == "ss" else "value",
                         "call_kwargs": {"metadata": [["x-verif", "1"]]}}
-                rest_ok = bool(s["http"]) and all(
-                    rest_accepts(var_toks(s["http"], v), q.get(v, "")) for v in http_vars(s["http"]))
-                index.append((s, q, rest_ok))
-                calls_by_kind["grpc"].append(call)
-                calls_by_kind["grpc_asyncio"].append(copy.deepcopy(call))
-                if rest_ok:
-                    calls_by_kind["rest"].append(copy.deepcopy(call))
-        sessions = [
-            {"op": "grpc_session", "client": loc["client"], "transport": loc["grpc"], "async": False, "calls": calls_by_kind["grpc"]},
-            {"op": "grpc_session", "client": loc["async_client"], "transport": loc["grpc_asyncio"], "async": True, "calls": calls_by_kind["grpc_asyncio"]},
-            {"op": "rest_session", "client": loc["client"], "transport": loc["rest"], "calls": calls_by_kind["rest"]},
-        ]
-        out = libhost.run(root, sessions, timeout=600)
-        for kind, sess in zip(("grpc", "grpc_asyncio", "rest"), out):
+                if mode == "request-literal-dict":
+                    call["request_literal"] = nest(q, literal=True)      # what a caller writes, not rebuilt from bytes
+                if s.get("stream") == "cs":
+                    call["stream_requests"] = [b64]
+                rest_ok = ("rest" in kinds and not s.get("stream") and bool(s["http"]) and all(
+                    rest_accepts(var_toks(s["http"], v), q.get(v, "")) for v in http_vars(s["http"])))
+                index.append((s, q, mode, rest_ok))
+                for k in kinds:
+                    if k != "rest" or rest_ok:
+                        calls_by_kind[k].append(copy.deepcopy(call))
+        sess_of = {"grpc": lambda: {"op": "grpc_session", "client": loc["client"], "transport": loc["grpc"], "async": False, "calls": calls_by_kind["grpc"]},
+                   "grpc_asyncio": lambda: {"op": "grpc_session", "client": loc["async_client"], "transport": loc["grpc_asyncio"], "async": True, "calls": calls_by_kind["grpc_asyncio"]},
+                   "rest": lambda: {"op": "rest_session", "client": loc["client"], "transport": loc["rest"], "calls": calls_by_kind["rest"]}}
+        out = dict(zip(kinds, libhost.run(root, [sess_of[k]() for k in kinds], timeout=600)))
+        for kind, sess in out.items():
             if "calls" not in sess:
-                ctx.fail(sig or "session-failed", f"T3 {kind} session failed: {str(sess)[-400:]}", {"specs": specs, "spec": specs[0]})
+                ctx.fail(sig or "session-failed", f"T3 {kind} session failed ({templates} templates): {str(sess)[-400:]}", {"specs": specs, "spec": specs[0], "templates": templates})
                 return
-        rest_iter = iter(out[2]["calls"])
+        iters = {k: iter(out[k]["calls"]) for k in kinds}
         mres = []
-        for (s, reqs), mo in zip(plans, model):
+        for (s, reqs, _), mo in zip(plans, model):
             for k in range(len(reqs)):
                 mres.append(mo["results"][k] if "results" in mo else None)
-        for i, ((s, q, rest_ok), mo) in enumerate(zip(index, mres)):
-            payload = {"spec": s, "request": q}
+        for (s, q, mode, rest_ok), mo in zip(index, mres):
+            payload = {"spec": s, "request": q, "mode": mode, "templates": templates}
             present, want = expected_pairs(s, q)
             seen = {}
-            for kind, rec in (("grpc", out[0]["calls"][i]), ("grpc_asyncio", out[1]["calls"][i]), ("rest", next(rest_iter) if rest_ok else None)):
-                if rec is None:
+            for kind in kinds:
+                if kind == "rest" and not rest_ok:
                     continue
+                rec = next(iters[kind])
                 if "ok" not in rec:
                     ctx.fail(f"call-raised:{kind}", f"{s['name']} via {kind}: {rec.get('raised')}: {rec.get('msg', '')[:200]}", payload)
                     continue
@@ -698,24 +812,31 @@ def run_api(ctx, r, specs, label, ncalls=4, requests=None):
                 seen[kind] = hs[0] if hs else None
             ctx.case({"kind": s["kind"], "template": [render_template(p["segs"]) if p["segs"] else None for p in (s["params"] or [])],
                       "http": render_http(s["http"]) if s["http"] else None, "request": q, "header": seen.get("grpc")},
-                     distinct_key=["call", json.dumps(s, sort_keys=True), json.dumps(q, sort_keys=True)],
+                     distinct_key=["call", templates, json.dumps(s, sort_keys=True), json.dumps(q, sort_keys=True), mode],
                      nontrivial=s["kind"] not in ("none",))
             ctx.count("expected_header", "present" if present else "absent")
-            ctx.count("clients", "+".join(sorted(seen)))
+            ctx.count("clients", templates + ":" + "+".join(sorted(seen)))
+            ctx.count("call_mode", mode)
             ctx.count("header_x_rest", f"{'present' if present else 'absent'}/{'rest' if rest_ok else 'no-rest'}")
+            known = "ads-templates-ignore-explicit-routing" if (templates == "ads" and s["params"] is not None) else None
             for kind, h in seen.items():
                 # ---- oracle
-                if not present:
+                if s.get("stream") == "cs":
+                    # no request exists when a client-streaming call starts: the statement's pairs cannot be formed;
+                    # all it allows is "no routing information"
+                    if h not in (None, ""):
+                        ctx.fail("client-streaming-header", f"{s['name']} via {kind}: client-streaming call carries {h!r}", payload)
+                elif not present:
                     if h is not None:
-                        ctx.fail("header-when-nothing-matches", f"{s['name']} via {kind}: header {h!r} sent although nothing matches", payload)
+                        ctx.fail(known or "header-when-nothing-matches", f"{s['name']} via {kind}: header {h!r} sent although nothing matches", payload)
                 elif h is None:
-                    ctx.fail("header-missing", f"{s['name']} via {kind}: no {HDR} header, expected {want}", {**payload, "client": kind})
+                    ctx.fail(known or "header-missing", f"{s['name']} via {kind}: no {HDR} header, expected {want}", {**payload, "client": kind})
                 else:
-                    oracle_header(ctx, h, want, {**payload, "client": kind}, f"{s['name']} via {kind}")
+                    oracle_header(ctx, h, want, {**payload, "client": kind}, f"{s['name']} via {kind}", key=known)
                 # ---- correspondence with the model
                 ctx.traces += 1
                 if mo is not None and mo.get("header") != h:
-                    ctx.disagree("T3:c06.header", f"{s['name']} via {kind}: model {mo.get('header')!r} vs impl {h!r}", {**payload, "client": kind})
+                    ctx.disagree("T3:c06.header", f"{s['name']} via {kind} ({templates}): model {mo.get('header')!r} vs impl {h!r}", {**payload, "client": kind})
             if len(set(seen.values())) > 1:
                 ctx.fail("clients-disagree", f"{s['name']}: sync/asyncio/REST headers differ: {seen}", payload)
     finally:
@@ -781,7 +902,9 @@ def run_payload(ctx, r, payload, label):
     if "spec" in payload or "specs" in payload:
         s = payload["spec"] if "spec" in payload else payload["specs"][0]
         reqs = {s["name"]: [payload["request"]]} if "request" in payload else None
-        run_api(ctx, r, [s], label, ncalls=3, requests=reqs)
+        if "requests" in payload:
+            reqs = {s["name"]: payload["requests"]}
+        run_api(ctx, r, [s], label, ncalls=3, requests=reqs, templates=payload.get("templates", "standard"))
     elif "template_segs" in payload:
         vals = [payload["value"]] if "value" in payload else None
         check_templates(ctx, r, 0, 6, extra=[(payload["template_segs"], vals)])
@@ -814,7 +937,18 @@ def probe_excluded(ctx):
         lambda: repr(real_param("f", "v1.0/{k=*}").to_regex().match("v1x0/abc")))
     rec("`**` before the last segment `{k=a/**}/b` on `a/x/b`",
         lambda: real_param("f", "{k=a/**}/b").to_regex().match("a/x/b").group("k"))
+    rec("implicit routing on enum / bool fields: what urlencode(str(value)) sends (google-api-core, Python 3.12)",
+        lambda: _enum_bool_probe())
     ctx.notes["excluded_points_outside_quantifier"] = out
+
+
+def _enum_bool_probe():
+    import enum
+    from google.api_core.gapic_v1 import routing_header
+
+    class Color(enum.IntEnum):
+        RED = 1
+    return routing_header.to_routing_header((("color", Color.RED), ("flag", True)))
 
 
 def _group_or_error(rx, v, key):
@@ -852,6 +986,7 @@ def run(ctx):
     check_many_named(ctx, r, ctx.n(10, 60))
     check_encode(ctx, r, ctx.n(200, 3000))
     check_field_headers(ctx, r, ctx.n(60, 600))
+    check_schema_resolve(ctx, r, ctx.n(40, 600))
     # ---- T3
     for a in range(ctx.n(5, 220)):
         specs = [gen_spec(r, i) for i in range(8)]
@@ -859,6 +994,11 @@ def run(ctx):
         specs[1] = gen_spec(r, 1, "implicit")
         run_api(ctx, r, specs, f"api{a}", ncalls=ctx.n(4, 5))
         ctx.count("stream", "generated-api")
+    # ---- the alternative ("ads") templates carry their own copy of create_metadata: sync gRPC only
+    for a in range(ctx.n(1, 30)):
+        specs = [gen_spec(r, i) for i in range(8)]
+        run_api(ctx, r, specs, f"ads{a}", ncalls=ctx.n(3, 4), templates="ads")
+        ctx.count("stream", "generated-api-ads")
 
 
 # the examples of routing.proto / AIP-4222, always run
@@ -877,6 +1017,7 @@ FIXED_TEMPLATES = [
 def search(ctx):
     r = ctx.rng("search")
     check_templates(ctx, r, 2500, 24)
+    check_schema_resolve(ctx, r, 300)
     check_encode(ctx, r, 3000)
     check_field_headers(ctx, r, 400)
     for a in range(16):
